@@ -103,7 +103,7 @@ class Region(object):
         vectors = self.sky2vec(sky)
         for vec, r in zip(vectors, rad):
             pix = hp.query_disc(2**depth, vec, r, inclusive=True, nest=True)
-            self.add_pixels(pix, depth)
+            self.add_pixels(pix, depth, renorm=False)
         self._renorm()
         return
 
@@ -131,11 +131,11 @@ class Region(object):
         sky = self.radec2sky(ras, decs)
         pix = hp.query_polygon(2**depth, self.sky2vec(sky),
                                inclusive=True, nest=True)
-        self.add_pixels(pix, depth)
+        self.add_pixels(pix, depth, renorm=False)
         self._renorm()
         return
 
-    def add_pixels(self, pix, depth):
+    def add_pixels(self, pix, depth, renorm=True):
         """
         Add one or more HEALPix pixels to this region.
 
@@ -146,12 +146,18 @@ class Region(object):
 
         depth : int
             The depth at which the pixels are added.
+
+        renorm : bool
+            Perform renormalisation after the operation?
+            Default = True.
         """
         if depth not in self.pixeldict:
             self.pixeldict[depth] = set()
         self.pixeldict[depth].update(set(pix))
         # any change invalidates the cached deepest-level representation
         self.demoted = set()
+        if renorm:
+            self._renorm()
 
     def get_area(self, degrees=True):
         """
@@ -278,7 +284,7 @@ class Region(object):
         """
         # merge the pixels that are common to both
         for d in range(1, min(self.maxdepth, other.maxdepth)+1):
-            self.add_pixels(other.pixeldict[d], d)
+            self.add_pixels(other.pixeldict[d], d, renorm=False)
 
         # if the other region is at higher resolution, then include a degraded
         # version of the remaining pixels.
